@@ -1,10 +1,10 @@
 import ViaGen.FL
 /-
-  The tie between the model and the C++ of `field_line::parse_char`, checked by the kernel on every run:
-  `ViaGen/FL.lean` is the translation of the function as it is in /repo NOW (tools/cxx2lean.py); the theorem below
-  states that the hand-written model `FL.parseChar` — the function all property theorems are about — computes the
-  same new state and the same returned bool for EVERY configuration, state and byte.  A change to the C++ that alters
-  the function's behaviour makes this stop checking.
+  The tie between the model and the C++ of `field_line::parse_char` and `field_line::parse`, checked by the kernel on every run:
+  `ViaGen/FL.lean` is the translation of the two functions as they are in /repo NOW (tools/cxx2lean.py); the theorems
+  below state that the hand-written model functions `FL.parseChar` and `FL.parse` — the functions all property theorems
+  are about — compute the same new state, the same remaining input and the same returned bool for EVERY configuration,
+  state and input.  A change to the C++ that alters the behaviour of one of them makes this stop checking.
 -/
 namespace Via
 
@@ -13,5 +13,34 @@ theorem FL_parseChar_translated (cfg : Cfg) (s : FL) (c : Byte) : GenFL.parseCha
   cases st <;> first
     | rfl
     | (simp only [GenFL.parseChar, FL.parseChar]; repeat' split) <;> simp_all
+
+/-- the fold look-ahead as the code writes it (`(iter != end) && std::isblank(*iter)`) is the model's `peek` -/
+theorem FL_peek_translated (s : FL) (it : Bytes) :
+    (if (s.st == .valid) then (if ((!it.isEmpty) && (isBlank (it.headD 0))) then { s with value := s.value ++ [32], st := .valueLs } else s) else s) = s.peek it := by
+  cases it with
+  | nil => simp [FL.peek]
+  | cons d ds => simp [FL.peek]; split <;> simp_all
+
+theorem FL_parseLoop_translated (cfg : Cfg) (buf : Bytes) : ∀ s : FL,
+    GenFL.parseLoop cfg s buf = FL.loop cfg s buf := by
+  induction buf with
+  | nil => intro s; simp [GenFL.parseLoop, FL.loop]
+  | cons c cs ih =>
+    intro s
+    unfold GenFL.parseLoop FL.loop
+    by_cases hv : s.st = .valid
+    · simp [hv]
+    · simp only [bne_iff_ne, ne_eq, hv, not_false_eq_true, ↓reduceIte, beq_iff_eq, FL_parseChar_translated]
+      cases hr : (FL.parseChar cfg s c).2
+      · simp
+      · simp only [Bool.not_true, Bool.false_eq_true, ↓reduceIte]
+        rw [ih, ← FL_peek_translated]
+        simp
+
+theorem FL_parse_translated (cfg : Cfg) (s : FL) (buf : Bytes) : GenFL.parse cfg s buf = FL.parse cfg s buf := by
+  unfold GenFL.parse FL.parse
+  rw [FL_parseLoop_translated, ← FL_peek_translated]
+  congr 1
+  cases h : s.st == .valid <;> simp
 
 end Via
